@@ -88,7 +88,12 @@ URL_IN_TEXT_RE = re.compile(
 URL_IN_HTML = r"""<a(?=\s)[^>]*\shref=(?:"([^"]*)"|'([^']*)'|([^\s>]*))[^>]*>"""
 URL_IN_HTML_BINARY = URL_IN_HTML.encode()
 
-URL_IN_HTML_RE = re.compile(URL_IN_HTML, re.I)
+# NOTE: ASCII semantics (whitespace, word boundary, case) for text also, so that
+# a document gives the same urls as text and as bytes (python 2 has no such flag
+# and needs none)
+ASCII_FLAG = getattr(re, "ASCII", 0)
+
+URL_IN_HTML_RE = re.compile(URL_IN_HTML, re.I | ASCII_FLAG)
 URL_IN_HTML_BINARY_RE = re.compile(URL_IN_HTML_BINARY, re.I)
 
 QUERY_VALUE_IN_URL_TEMPLATE = r"(?:^|[?&])(%s)=([^&]+)"
@@ -100,5 +105,5 @@ DOMAIN_TEMPLATE = r"^(?:https?:)?(?://)?(?:\S+(?::\S*)?@)?%s(?:[:/#]|\s*$)"
 SCRIPT_TAG = r"<script\b[^<]*(?:(?!<\/script>)<[^<]*)*<\/script>"
 SCRIPT_TAG_BINARY = SCRIPT_TAG.encode()
 
-SCRIPT_TAG_RE = re.compile(SCRIPT_TAG, re.I)
+SCRIPT_TAG_RE = re.compile(SCRIPT_TAG, re.I | ASCII_FLAG)
 SCRIPT_TAG_BINARY_RE = re.compile(SCRIPT_TAG_BINARY, re.I)
